@@ -35,7 +35,7 @@ def _reg(pid, **kw):
 
 
 _reg("C19", engine="pbc", level="exploration",
-     runs={"quick": 16000, "thorough": 1600000}, block=250,
+     runs={"quick": 48000, "thorough": 1600000}, block=500,
      technique="seeded trajectory generation against a brute-force minimum-image oracle, run and replayed by the simulation harness (no schedule or fault dimension exists for this pure function)",
      level_text=("Sampled, not exhaustive: seeded trajectories (walks, lattice jumps, near-half-box placements) of two residues "
                  "under orthorhombic and triclinic boxes; every step is compared with an independent brute-force minimum over "
@@ -73,7 +73,7 @@ _reg("C13", engine="grofile", level="exploration",
      probes=["custom_format", "velocities", "declared_count", "number_ge_99999", "triclinic_box"])
 
 _reg("C14", engine="grofile", level="fault_enumeration",
-     runs={"quick": 3200, "thorough": 100000}, block=20,
+     runs={"quick": 4800, "thorough": 100000}, block=20,
      technique="crash-point enumeration on the file seam's operation log (stop before every write/seek/close, torn writes, byte truncation), each image opened by the real reader",
      level_text=("Per sampled writer session EVERY crash point at operation granularity is enumerated (before each record, "
                  "before close, between the seek / count back-fill / seek / box / newline steps of close), every torn prefix "
@@ -93,7 +93,7 @@ _reg("C14", engine="grofile", level="fault_enumeration",
 
 
 _reg("C15", engine="topo", level="exploration",
-     runs={"quick": 8000, "thorough": 600000}, block=50,
+     runs={"quick": 16000, "thorough": 600000}, block=100,
      technique="seeded generation of topology files with ground truth carried in the trace; loaded through the real parsers behind the file seam; recursion limit as an injected resource budget",
      level_text=("Sampled .itp files (1..3000 atoms; trees, forests, cyclic graphs; gapped numbering; bonds spread over "
                  "bonds/constraints/pairs in any order, occasionally the same section twice; comments, blank and preprocessor "
@@ -110,7 +110,7 @@ _reg("C15", engine="topo", level="exploration",
      probes=["chain_ge_1000", "cyclic_graph", "disconnected_graph", "multi_residue"])
 
 _reg("C16", engine="topo", level="exploration",
-     runs={"quick": 8000, "thorough": 600000}, block=50,
+     runs={"quick": 16000, "thorough": 600000}, block=100,
      technique="five-step file history (read A, write B, read B, write C, read C) through the file seam; A/B/C compared by an independent line classifier and by read_topology",
      level_text=("Sampled file histories over all 16 shipped topologies and generated files with sections in any order, repeated "
                  "section names, content lines with no / empty / multiple trailing comments, comment-only lines including "
@@ -133,7 +133,7 @@ _XMAP_NOTE = ("Trusted: the 40-line frame model (sim/models.py) and numpy.  Gene
               "accepted either way.  Reference and target have the same number of residues.")
 
 _reg("C01", engine="xmap", level="exploration",
-     runs={"quick": 1200, "thorough": 60000}, block=8,
+     runs={"quick": 3200, "thorough": 80000}, block=16,
      technique="seeded call histories on one stateful ExchangeMap; anchor-and-scale law checked whenever the history maps the construction configuration (not only first)",
      level_text=("Sampled reference/target pairs (3..40 reference atoms; trees, forests, cyclic graphs; generic, exactly collinear "
                  "along axes / diagonals / integer directions, and mixed geometries; scale in (0, 2]) and sampled histories.  "
@@ -149,7 +149,7 @@ _reg("C01", engine="xmap", level="exploration",
      probes=["collinear_reference", "collinear_frame", "anchor_tie"])
 
 _reg("C02", engine="xmap", level="exploration",
-     runs={"quick": 1200, "thorough": 60000}, block=8,
+     runs={"quick": 3200, "thorough": 80000}, block=16,
      technique="seeded call histories with rigidly moved copies; random seam (seeded stream + corner/face override script) behind the frame completion of 1-/2-atom references; axis invariants across repeated calls",
      level_text=("Sampled pairs and histories dominated by calls on R ref + t (R uniform on SO(3) plus identity / pi / tiny / quarter "
                  "turns, |t| up to 30 nm).  Generic anchors: equality with R map(ref) + t to 1e-8; collinear anchors and 2-atom "
@@ -166,7 +166,7 @@ _reg("C02", engine="xmap", level="exploration",
      probes=["collinear_reference", "collinear_frame", "coincident_middle_point"])
 
 _reg("C03", engine="xmap", level="exploration",
-     runs={"quick": 1200, "thorough": 60000}, block=8,
+     runs={"quick": 3200, "thorough": 80000}, block=16,
      technique="seeded call histories with deformed conformations and single-atom displacement probes against a locality oracle",
      level_text=("Sampled pairs and histories dominated by calls on deformed conformations (independent displacement of every "
                  "atom up to 0.3 nm) and on conformations that differ from an earlier one by a single displaced atom.  Checked: "
@@ -182,7 +182,7 @@ _reg("C03", engine="xmap", level="exploration",
      probes=["locality_checked", "collinear_reference"])
 
 _reg("C04", engine="xmap", level="exploration",
-     runs={"quick": 1200, "thorough": 60000}, block=8,
+     runs={"quick": 3200, "thorough": 80000}, block=16,
      technique="seeded operation histories (calls, repeats, rejected arguments, mutation of construction molecules / results / arguments) on one map, checked after every operation against a freshly built map, a reference model and bitwise snapshots",
      level_text=("Sampled histories of 10..32 operations on one map: calls on construction / rigid / deformed copies and on "
                  "separately built instances of the species, repeats of earlier calls, rejected arguments (other name, other "
@@ -212,7 +212,7 @@ _MC_FAULTS = ["accept_draw_extreme", "move_type_pinned", "atom_index_pinned", "t
               "rotation_axis_extreme", "atom_displacement_scaled"]
 
 _reg("C06", engine="mc", level="exploration",
-     runs={"quick": 2400, "thorough": 160000}, block=8,
+     runs={"quick": 4800, "thorough": 160000}, block=16,
      cross_interpreter={"quick": 8, "thorough": 128},
      technique="deterministic simulation of the Monte-Carlo alignment under a seeded + adversarially overridden random stream; end-state oracles; every run executed twice (bit-identical) and a sample re-executed in a fresh interpreter under another hash seed",
      level_text=("Sampled molecule pairs (1..40 atoms, either one larger, ties, one-atom molecules), restraint lists, deformation-type "
@@ -232,7 +232,7 @@ _reg("C06", engine="mc", level="exploration",
      probes=["accepted_worse_proposal", "rigid_only_run", "new_minimum", "rejected_proposal"] )
 
 _reg("C07", level="exploration",
-     parts=[{"engine": "mc", "runs": {"quick": 1600, "thorough": 120000}, "block": 8},
+     parts=[{"engine": "mc", "runs": {"quick": 3200, "thorough": 120000}, "block": 16},
             {"engine": "directed", "runs": {"quick": 1000, "thorough": 40000}, "block": 10}],
      technique="in-situ monitor on every single-atom move and random displacement the Monte-Carlo loop makes under the random seam; the same monitor fed with all labelled trees up to 6 (thorough: 7) atoms and random trees / cyclic graphs",
      level_text=("(1) Every move_mol_atom / find_atom_random_displ call made by the simulated Monte-Carlo trajectories is checked: input "
@@ -254,7 +254,7 @@ _reg("C07", level="exploration",
      probes=["displacement_three_neighbours", "enumerated_tree_batch", "cyclic_move", "bond_table_disagrees_with_geometry"])
 
 _reg("C08", level="exploration",
-     parts=[{"engine": "mc", "runs": {"quick": 1600, "thorough": 120000}, "block": 8},
+     parts=[{"engine": "mc", "runs": {"quick": 3200, "thorough": 120000}, "block": 16},
             {"engine": "directed", "runs": {"quick": 1200, "thorough": 60000}, "block": 10}],
      technique="in-situ monitor comparing every chi2 evaluation made along simulated Monte-Carlo trajectories with a naive re-statement of the definition; directed: calculators reused on unrelated configurations, rigid-motion and relabelling invariance",
      level_text=("Every evaluation of the overlap measure made by the loop -- on configurations reached by the search, far from the "
@@ -275,7 +275,7 @@ _reg("C08", level="exploration",
      probes=["chi2_off_construction_config", "chi2_penalty_k>0"])
 
 _reg("C09", engine="mc", level="exploration",
-     runs={"quick": 2400, "thorough": 160000}, block=8,
+     runs={"quick": 4800, "thorough": 160000}, block=16,
      technique="deterministic simulation of the Monte-Carlo loop: every draw comes from the random seam, every component call is observed, and a reference model of the loop's bookkeeping is advanced event by event (refinement check per step)",
      level_text=("Per iteration, through the seams only: the move-type draw, the proposal handed to the measure, its value, the two "
                  "energies given to the acceptance test, the uniform number it consumed and its answer, the rotation matrix / the "
@@ -296,9 +296,9 @@ _reg("C09", engine="mc", level="exploration",
      probes=["accepted_worse_proposal", "accepted_without_new_minimum", "new_minimum", "rejected_proposal"])
 
 _reg("C17", level="exploration",
-     parts=[{"engine": "xmap", "runs": {"quick": 600, "thorough": 30000}, "block": 8},
-            {"engine": "mc", "runs": {"quick": 300, "thorough": 15000}, "block": 4},
-            {"engine": "directed", "runs": {"quick": 600, "thorough": 40000}, "block": 20}],
+     parts=[{"engine": "xmap", "runs": {"quick": 1600, "thorough": 30000}, "block": 16},
+            {"engine": "mc", "runs": {"quick": 800, "thorough": 15000}, "block": 8},
+            {"engine": "directed", "runs": {"quick": 1600, "thorough": 40000}, "block": 40}],
      technique="in-situ monitors on every rotation matrix the simulated Monte-Carlo loop uses (axes/angles from the random seam incl. injected extremes) and on every local frame the exchange-map histories build; directed closed-form relations",
      level_text=("Every matrix rotation_matrix returns during mc runs (orthogonal, det +1, axis fixed, trace 1 + 2cos(theta), to "
                  "1e-12) and every frame calcule_base returns during xmap runs (right-handed orthonormal to 1e-12, first vector "
@@ -315,7 +315,7 @@ _reg("C17", level="exploration",
 
 
 _reg("C12", engine="grosys", level="exploration",
-     runs={"quick": 6000, "thorough": 300000}, block=50,
+     runs={"quick": 16000, "thorough": 400000}, block=100,
      technique="seeded scheduler over cooperative consumers (live generators + random access) of one SystemGro that share a single file cursor; every returned residue checked against an independent parse",
      level_text=("Sampled files (1..400 residues of 1..12 atoms; repeated, alternating and random residue kinds; equal names with "
                  "different sizes; boundaries where only the number or only the name changes; equal consecutive (number, name) "
@@ -332,7 +332,7 @@ _reg("C12", engine="grosys", level="exploration",
 
 
 _reg("C18", engine="alias", level="exploration",
-     runs={"quick": 3000, "thorough": 200000}, block=25,
+     runs={"quick": 9600, "thorough": 300000}, block=50,
      technique="seeded operation histories over an aliasing object graph, refinement-checked after every operation against a storage-cell model (copies: fresh cells, views: shared cells)",
      level_text=("Sampled histories of 6..40 operations {copy, deep_copy, atom/residue copies, live views by index / negative index / "
                  "iteration, molecules handed out by a System built from real files (index, iteration, slice, same index twice), "
@@ -352,7 +352,7 @@ _reg("C18", engine="alias", level="exploration",
 
 
 _reg("C11", engine="system", level="exploration",
-     runs={"quick": 3000, "thorough": 200000}, block=25,
+     runs={"quick": 9600, "thorough": 300000}, block=50,
      technique="seeded load-order schedules with interleaved observers and injected failing loads on one System; all observers cross-checked against the instance list the generator recorded",
      level_text=("Sampled worlds (1..4 species of 1..3 residues with repeated residues inside a species, equal residue names with "
                  "different sizes, an unloaded solvent) and files of 0..6 (thorough: up to 40) molecules in any order with solvent "
@@ -370,7 +370,7 @@ _reg("C11", engine="system", level="exploration",
 
 
 _reg("C10", engine="routing", level="exploration",
-     runs={"quick": 2400, "thorough": 120000}, block=20,
+     runs={"quick": 9600, "thorough": 240000}, block=50,
      technique="interposed recording stubs at the component boundaries (optimiser entry point; per-species alignment) under seeded generation of molecule pairs, restraint lists and per-species option dictionaries with injected malformed options; enumeration of all 40x40 residue-length pairs for the splitter",
      level_text=("Three sampled workloads.  (1) Alignment level: what the optimiser receives is recorded by a stub and each restraint "
                  "is checked BY COORDINATES to designate the atoms the user meant, for either molecule larger, ties, random hydrogens, "
@@ -393,7 +393,7 @@ _reg("C10", engine="routing", level="exploration",
 
 
 _reg("C05", engine="pipeline", level="exploration",
-     runs={"quick": 3200, "thorough": 160000}, block=10,
+     runs={"quick": 6400, "thorough": 200000}, block=20,
      technique="seeded Manager life-cycle histories on a simulated disk: the file seam's operation log answers 'was the output opened for writing' and supplies the written image; output re-parsed independently and compared molecule by molecule with the species' map applied to the input molecule",
      level_text=("Sampled worlds (2..5 species with 1-, 2- and >=3-atom references, single- and two-residue species, an unloaded "
                  "solvent, 2..60 interleaved molecules, rectangular / triclinic box, assorted titles) and sampled histories: end "
@@ -416,7 +416,7 @@ _reg("C05", engine="pipeline", level="exploration",
 
 
 _reg("C20", engine="cli", level="exploration",
-     runs={"quick": 400, "thorough": 20000}, block=2,
+     runs={"quick": 800, "thorough": 20000}, block=4,
      cross_interpreter={"quick": 8, "thorough": 48},
      budget={"quick": 200, "thorough": 2400},
      technique="deterministic simulation of the CLI: random seam (same seed, digest comparison) for CLI-vs-library equivalence; set seam (scheduler-chosen iteration order of the discovery sets) and scheduler-chosen candidate order for discovery; real subprocesses under different hash seeds as a cross-check",
